@@ -200,10 +200,6 @@ def run(ctx):
         {"function": s.f.qualname, "field": s.fld, "saves": sorted(s.saves), "orig_value": s.orig_desc,
          "orig_writes": [w.lineno for w in s.orig], "temp_writes": [w.lineno for w in s.temp],
          "temporary_scope": s.is_temp_scope} for s in scopes]
-    if len(temp_scopes) < 9:
-        raise AnalysisError("only %d temporary scopes found (floor 9 confirmed on the pinned tree): %s" % (
-            len(temp_scopes), ", ".join("%s/%s" % (s.f.name, s.fld) for s in temp_scopes)))
-
     _extra_rules(ctx, scopes)
     _event_and_flush_rules(ctx)
     for s in temp_scopes:
@@ -285,6 +281,15 @@ def run(ctx):
                     else:
                         ctx.fail("R05.d", f, fn_, "the flush runs while the batching flag is still raised (a raising flush leaves it set)",
                                  key="%s::flush-before-restore::%s" % (f.qualname, fn_.text()))
+    _scope_floor(ctx, temp_scopes)
+
+
+def _scope_floor(ctx, temp_scopes):
+    # vacuity floor on the number of temporary scopes; checked last so that a scope
+    # that disappeared *because of* a reported violation does not mask the report
+    if len(temp_scopes) < 9 and not ctx.violations:
+        raise AnalysisError("only %d temporary scopes found (floor 9 confirmed on the pinned tree): %s" % (
+            len(temp_scopes), ", ".join("%s/%s" % (s.f.name, s.fld) for s in temp_scopes)))
 
 
 def _reach_after(cfg: CFG, start: Node, stops: Set[int]) -> Set[int]:
